@@ -12,8 +12,8 @@ from vf.simk.world import World
 ID = "C12"
 LEVEL = "exploration"
 ALT_MOUNT = True          # run once more with procfs mounted at /hostproc (vf/child.py)
-ARGS = [b"", b"a", b"a b", b"/bin/x", b"\xff", b"-c"]
-ENVS = [b"A=1", b"A=2", b"B=x=y", b"NOEQ", b"=v", b"", b"C=", b"D=\xff"]
+ARGS = [b"", b"a", b"a b", b"/bin/x", b"\xff", b"-c", b"c\r\nd\re"]   # the last one: CR / CRLF are data, not line ends
+ENVS = [b"A=1", b"A=2", b"B=x=y", b"NOEQ", b"=v", b"", b"C=", b"D=\xff", b"E=1\r\n2\r"]
 
 
 def fsd(b):
@@ -58,6 +58,8 @@ def mk_world(seed):
     w.set_file("/bin/noexec", b"data", mode="noexec")
     w.mkdir("/bin/dir")
     w.set_file("/bin/y (deleted)", b"#!")
+    # a binary the CALLER may not stat (it lives under a directory without search permission for the caller): stat() -> EACCES
+    w.set_file("/priv/tool", b"#!", mode="statdeny")
     for pth in ("/usr/bin/sed", "/tmp/deleted", "/opt/node", "/x/a.out"):
         w.set_file(pth, b"#!")
     return w, p
@@ -247,6 +249,9 @@ def _run_case(case, st):
             w.vanish(p.pid)
             gone = True
         p.cmdline = case[4]
+        cmd_denied = len(case) > 5 and case[5] == "cmdline-denied"
+        if cmd_denied:
+            p.denied.add("cmdline")           # the second-level read (argv for the fallback) is refused during the FIRST call only
         got = outcome(getattr(pr, which))
         if state == "gone":
             chk(which + "-gone", got, got[0] == "exc" and got[1] == "NoSuchProcess", "NoSuchProcess")
@@ -266,14 +271,15 @@ def _run_case(case, st):
                 else:
                     chk("cwd", got, got == ("ok", link), link)
             else:
-                argv = ref_cmdline(case[4], False)
+                argv = [] if cmd_denied else ref_cmdline(case[4], False)
                 guess = None
                 if argv and os.path.isabs(argv[0]):
                     try:
                         real0 = w.resolve(argv[0])
                     except OSError:
                         real0 = None
-                    if real0 in w.nodes and w.nodes[real0].kind == "f" and w.nodes[real0].mode != "noexec":
+                    if real0 in w.nodes and w.nodes[real0].kind == "f" and w.nodes[real0].mode not in ("noexec", "statdeny"):
+                        # (a path the caller may not stat is not known to be an executable file: no guess, and no other error either)
                         guess = argv[0]
                 if link == "AD":
                     if guess is not None:
@@ -288,6 +294,7 @@ def _run_case(case, st):
                 # cached answer: a second call returns the same without regard to later changes
                 if got[0] == "ok":
                     p.exe = "/bin/other"
+                    p.denied.discard("cmdline")
                     got2 = outcome(pr.exe)
                     chk("exe-cache", got2, got2 == got, got)
         if gone:
@@ -378,12 +385,17 @@ def build_cases(thorough):
                "/tmp/a b", None, "/usr/bin/sed (deleted)", "/tmp/deleted (deleted)", "/opt/node (deleted)", "/x/a.out (deleted)"]
     cmds = [b"/bin/x\0-a\0", b"x\0", b"/bin/noexec\0", b"/bin/dir\0", b"", b"/bin/missing\0", b"/bin/x -a",
             # argv[0] as wrapper scripts produce it ($(dirname $0)/../bin/x): absolute, executable, not normalised -- returned as it is
-            b"/bin/../bin/x\0", b"/bin//x\0", b"/bin/./x\0", b"/bin/dir/../x\0"]
+            b"/bin/../bin/x\0", b"/bin//x\0", b"/bin/./x\0", b"/bin/dir/../x\0",
+            # argv[0] absolute, but stat() of it is refused to the caller (EACCES)
+            b"/priv/tool\0", b"/priv/tool\0-v\0"]
     for which in ("exe", "cwd"):
         for t in targets:
             for state in ("ok", "denied", "gone") + (("esrch",) if t is None else ()):
                 for c in (cmds if which == "exe" else cmds[:1]):
                     cases.append(("link", which, t, state, c))
+                    if which == "exe" and state != "gone":
+                        # the same exe() question while /proc/<pid>/cmdline is refused (EACCES) during the first call, readable after
+                        cases.append(("link", which, t, state, c, "cmdline-denied"))
     longs = [b"a" * 15, b"gnome-keyring-d", b"a" * 14, "é".encode() * 7 + b"x", b"a b c d e f g h"]
     for comm in longs:
         for data in (comm + b"-daemon\0--x\0", b"/usr/bin/" + comm + b"-daemon\0", b"/usr/bin/other\0", comm[:5] + b"\0",
